@@ -20,7 +20,7 @@ Definition d10_view : view xitem :=
     mkblk (hx "05") [] ].
 
 Definition d10_flavour (range : Z) : flavour := multi_flavour 0 10 range.
-Definition d10_history : list (top bytes) := [TSync d10_view []].
+Definition d10_history : list (top bytes) := [TSync d10_view [] [] []].
 
 Lemma d10_view_ok range : 0 < range < 1000 -> view_ok (@t_key bytes) (@t_admissible bytes) (d10_flavour range) d10_view.
 Proof.
@@ -73,6 +73,17 @@ Proof.
   - vm_compute. reflexivity.
 Qed.
 
+(* in the exact form: the one range [1, 5] of the Sync with limit 10 has the D10 shape, the five
+   one-block ranges of the Sync with limit 1 do not *)
+Lemma d10_shape_present : ~ td10_free tag_match (d10_flavour 10) tginit d10_history.
+Proof.
+  intros [H _]. specialize (H 1 5). cbv beta in H.
+  assert (Hin : In (1, 5) (sync_ranges_of (d10_flavour 10) d10_view (tg_st tginit))) by (vm_compute; left; reflexivity).
+  specialize (H Hin (mkpev 3 (hx "03") 0 0 (IReg reg1))).
+  assert (Hp : In (mkpev 3 (hx "03") 0 0 (IReg reg1)) (rows_of (@t_admissible bytes) d10_view 1 5)) by (vm_compute; left; reflexivity).
+  specialize (H Hp). vm_compute in H. discriminate.
+Qed.
+
 (* a fork: the trigger fires on branch a at block 4; the log is absent on branch b and appears
    again at block 6: after the reorganisation the fired row is the one of the new branch *)
 Definition fork_a : view xitem :=
@@ -83,11 +94,11 @@ Definition fork_b : view xitem :=
     mkblk (hx "b4") []; mkblk (hx "b5") [] ].
 Definition fork_b' : view xitem := fork_b ++ [ mkblk (hx "b6") [(0, 0, ILog (hx "d1"))] ].
 Definition fork_flavour : flavour := multi_flavour 0 2 1.
-Definition fork_history : list (top bytes) := [TSync fork_a []; TSync fork_b []; TSync fork_b' []].
+Definition fork_history : list (top bytes) := [TSync fork_a [] [] []; TSync fork_b [] [] []; TSync fork_b' [] [] []].
 
 Example fork_unfires_and_refires :
-  ts_fired (tg_st (tgrun tag_match fork_flavour [TSync fork_a []])) = [mkfired (trigger_key reg1) 4 (hx "a4") 0 0] /\
-  ts_fired (tg_st (tgrun tag_match fork_flavour [TSync fork_a []; TSync fork_b []])) = [] /\
+  ts_fired (tg_st (tgrun tag_match fork_flavour [TSync fork_a [] [] []])) = [mkfired (trigger_key reg1) 4 (hx "a4") 0 0] /\
+  ts_fired (tg_st (tgrun tag_match fork_flavour [TSync fork_a [] [] []; TSync fork_b [] [] []])) = [] /\
   ts_fired (tg_st (tgrun tag_match fork_flavour fork_history)) = [mkfired (trigger_key reg1) 6 (hx "b6") 0 0].
 Proof. vm_compute. repeat split. Qed.
 
@@ -100,25 +111,38 @@ Proof.
 Qed.
 
 Lemma fork_hypotheses :
-  tuniverse_ok tag_match fork_flavour (top_views fork_history) /\
+  tuniverse_ok fork_flavour (top_views fork_history) /\
   theads_ok tag_match fork_flavour tginit fork_history /\
+  td10_free tag_match fork_flavour tginit fork_history /\
   no_decrypt bytes fork_history.
 Proof.
-  split; [|split].
-  - split.
-    + intros u Hu. split; [apply fork_view_ok; exact Hu|]. split; [|apply no_early_match_one].
+  assert (HU : tuniverse_ok fork_flavour (top_views fork_history)).
+  { split.
+    + intros u Hu. split; [apply fork_view_ok; exact Hu|].
       destruct Hu as [<-|[<-|[<-|[]]]]; vm_compute; reflexivity.
-    + intros u w [<-|[<-|[<-|[]]]] [<-|[<-|[<-|[]]]]; concrete_hash_determines.
-  - split; [exact I|].
-    assert (Hg1 : tgstep tag_match fork_flavour tginit (TSync fork_a [])
+    + intros u w [<-|[<-|[<-|[]]]] [<-|[<-|[<-|[]]]]; concrete_hash_determines. }
+  assert (Hok : theads_ok tag_match fork_flavour tginit fork_history).
+  { split; [exact I|].
+    assert (Hg1 : tgstep tag_match fork_flavour tginit (TSync fork_a [] [] [])
                   = mktg (mktstate (mkstate (Some (4, hx "a4")) [mkpev 1 (hx "01") 0 0 (IReg reg1)]) []
                                    [mkfired (trigger_key reg1) 4 (hx "a4") 0 0]) fork_a) by (vm_compute; reflexivity).
     rewrite Hg1. split; [unfold head_ok; cbn [g_st g_view ts_core tg_st tg_view st_status]; split; [concrete_agree|left; vm_compute; discriminate]|].
     assert (Hg2 : tgstep tag_match fork_flavour
                     (mktg (mktstate (mkstate (Some (4, hx "a4")) [mkpev 1 (hx "01") 0 0 (IReg reg1)]) []
-                                    [mkfired (trigger_key reg1) 4 (hx "a4") 0 0]) fork_a) (TSync fork_b [])
+                                    [mkfired (trigger_key reg1) 4 (hx "a4") 0 0]) fork_a) (TSync fork_b [] [] [])
                   = mktg (mktstate (mkstate (Some (5, hx "b5")) [mkpev 1 (hx "01") 0 0 (IReg reg1)]) [] []) fork_b) by (vm_compute; reflexivity).
     rewrite Hg2. split; [|exact I].
-    unfold head_ok; cbn [g_st g_view ts_core tg_st tg_view st_status]. split; [concrete_agree|right; concrete_agree].
+    unfold head_ok; cbn [g_st g_view ts_core tg_st tg_view st_status]. split; [concrete_agree|right; concrete_agree]. }
+  split; [exact HU|]. split; [exact Hok|]. split.
+  - apply (no_early_history bytes tag_match fork_flavour ltac:(reflexivity) ltac:(discriminate) ltac:(discriminate) fork_history HU);
+      [intros u _; apply no_early_match_one|exact Hok].
   - intros k [H|[H|[H|[]]]]; discriminate.
 Qed.
+
+(* the same history with failures: the second Sync loses its connection after the rollback's commit,
+   the retry resyncs; the result is the same *)
+Example fork_history_with_faults :
+  ts_fired (tg_st (tgrun tag_match fork_flavour
+     [TSync fork_a [] [] []; TSync fork_b [] [] [NoFault; NoFault; FailApplied]; TSync fork_b [] [Fail] []; TSync fork_b [] [] []; TSync fork_b' [] [] []]))
+  = [mkfired (trigger_key reg1) 6 (hx "b6") 0 0].
+Proof. vm_compute. reflexivity. Qed.
